@@ -12,12 +12,14 @@ open GoluaVerif.Model.CallCtx
 structure Good (a a' : Acc) (ex : Exit) : Prop where
   inv : Inv a'.st
   parents : a'.st.parents = a.st.parents
-  live : ex ≠ .killed → a'.st.cur.live = true
-  killed : ex = .killed → a'.st.cur.status = StatusKilled
+  hard : a'.st.cur.hard = a.st.cur.hard
+  live : (∀ r, ex ≠ .killed r) → a'.st.cur.live = true
+  killed : ∀ r, ex = .killed r → a'.st.cur.status = StatusKilled
   truthful : (∀ r ∈ a.results, Truthful r) → ∀ r ∈ a'.results, Truthful r
 
 theorem Good.trans {a b c : Acc} {e1 : Exit} {e2 : Exit} (h1 : Good a b e1) (h2 : Good b c e2) : Good a c e2 :=
-  ⟨h2.inv, h2.parents.trans h1.parents, h2.live, h2.killed, fun h => h2.truthful (h1.truthful h)⟩
+  ⟨h2.inv, h2.parents.trans h1.parents, h2.hard.trans h1.hard, h2.live, h2.killed,
+   fun h => h2.truthful (h1.truthful h)⟩
 
 theorem live_of_status {f : Frame} (h : f.status = StatusLive) : f.live = true := by
   unfold Frame.live; rw [h]; rfl
@@ -68,18 +70,81 @@ theorem local_step {s : St} (o : Op) (ho : localOp o = true) (hl : s.cur.live = 
     · exact ⟨fun _ => hl, (fun h => nomatch h)⟩
   | due => exact ⟨rfl, fun _ => hl, (fun h => nomatch h)⟩
 
+theorem local_hard {s : St} (o : Op) (ho : localOp o = true) : (step s o).1.cur.hard = s.cur.hard := by
+  cases o with
+  | push d => cases ho
+  | pop => cases ho
+  | reqCpu n => exact (requireCPU_same s.cur n).1
+  | reqMem n => exact (requireMem_same s.cur n).1
+  | relMem n => exact (releaseMem_same s.cur n).1
+  | stop l => exact (setStop_same s.cur l).1
+  | due => rfl
+
 theorem inv_setError {s : St} (h : Inv s) : Inv (setError s) := by
   obtain ⟨hc, hch⟩ := h
-  refine ⟨⟨hc.cpu, hc.mem, hc.millis, hc.soft, ?_, hc.tcpu, hc.tmem⟩, chainInv_congr (c := s.cur) (c' := (setError s).cur) (ps := s.parents) rfl rfl hch⟩
+  refine ⟨⟨hc.cpu, hc.mem, hc.millis, hc.soft, ?_, hc.tcpu, hc.tmem⟩,
+    chainInv_congr (c := s.cur) (c' := (setError s).cur) (ps := s.parents) rfl rfl hch⟩
   intro hl
   have : (setError s).cur.status = StatusError := rfl
   unfold Frame.live at hl; rw [this] at hl; cases hl
+
+theorem inv_afterBody {s : St} (ex : Exit) (h : Inv s) : Inv (afterBody ex s) := by
+  unfold afterBody; split
+  · exact inv_setError h
+  · exact h
+
+theorem afterBody_same (ex : Exit) (s : St) :
+    (afterBody ex s).parents = s.parents ∧ (afterBody ex s).cur.hard = s.cur.hard ∧
+    (afterBody ex s).cur.used = s.cur.used ∧ (afterBody ex s).cur.flags = s.cur.flags ∧
+    (ex ≠ .error → afterBody ex s = s) := by
+  unfold afterBody; split
+  · rename_i h; exact ⟨rfl, rfl, rfl, rfl, fun c => absurd h c⟩
+  · exact ⟨rfl, rfl, rfl, rfl, fun _ => rfl⟩
+
+/-- propagateTermination either leaves the parent alone or kills it (only a live parent, only for a
+recorded resource) -/
+theorem propagate_cases (m child : Frame) (res : TermRes) :
+    m.propagate child res = (m, .ok) ∨
+    (m.propagate child res = (m.kill, .terminated) ∧ m.live = true ∧ res ≠ .none) := by
+  cases res with
+  | none => exact Or.inl rfl
+  | cpu =>
+    simp only [Frame.propagate]; split
+    · rename_i h; simp only [Bool.and_eq_true] at h; exact Or.inr ⟨rfl, h.2, (fun c => nomatch c)⟩
+    · exact Or.inl rfl
+  | mem =>
+    simp only [Frame.propagate]; split
+    · rename_i h; simp only [Bool.and_eq_true] at h; exact Or.inr ⟨rfl, h.2, (fun c => nomatch c)⟩
+    · exact Or.inl rfl
+
+/-- the call, with its deferred PopContext resolved: under the invariant the pop always succeeds and
+restores the parent charged with what the child used -/
+theorem call_unfold (a : Acc) (d : CtxDef) (body : List Item) (a1 : Acc) (ex : Exit)
+    (hr : runBody { a with st := push a.st d } body = (a1, ex))
+    (gb : Good { a with st := push a.st d } a1 ex) (hl : a.st.cur.live = true) :
+    FrameOk (afterBody ex a1.st).cur ∧ Chain (afterBody ex a1.st).cur a.st.cur ∧ FrameOk a.st.cur ∧
+    ChainInv a.st.cur a.st.parents ∧
+    runItem a (.call d body) =
+      afterPop a1 ex (afterBody ex a1.st) (charged a.st.cur (afterBody ex a1.st).cur) a.st.parents := by
+  have hi2 := inv_afterBody ex gb.inv
+  have hpar2 : (afterBody ex a1.st).parents = a.st.cur :: a.st.parents :=
+    (afterBody_same ex a1.st).1.trans gb.parents
+  obtain ⟨hc2, hch2⟩ := hi2
+  rw [hpar2] at hch2
+  obtain ⟨hcp, hp, hpl, hrest⟩ := hch2
+  have hpop : pop (afterBody ex a1.st) = (⟨charged a.st.cur (afterBody ex a1.st).cur, a.st.parents⟩, .ok) := by
+    have := pop_ok (ps := a.st.parents) hc2 hp hpl hcp
+    rw [← hpar2] at this
+    exact this
+  refine ⟨hc2, hcp, hp, hrest, ?_⟩
+  unfold runItem
+  simp only [hr, hpop]
 
 mutual
   theorem good_body (a : Acc) (body : List Item) (hw : wfBody body = true) (hi : Inv a.st)
       (hl : a.st.cur.live = true) : Good a (runBody a body).1 (runBody a body).2 := by
     match body with
-    | [] => exact ⟨hi, rfl, fun _ => hl, (fun h => nomatch h), fun h => h⟩
+    | [] => exact ⟨hi, rfl, rfl, fun _ => hl, (fun _ h => nomatch h), fun h => h⟩
     | it :: rest =>
       have hw' : it.wf = true ∧ wfBody rest = true := by
         have := hw; unfold wfBody at this; simpa using this
@@ -90,91 +155,85 @@ mutual
         rw [hr] at g1
         cases e1 with
         | done =>
-          have g2 := good_body a1 rest hw'.2 g1.inv (g1.live (fun h => nomatch h))
+          have g2 := good_body a1 rest hw'.2 g1.inv (g1.live (fun _ h => nomatch h))
           exact g1.trans g2
         | error => exact g1
-        | killed => exact g1
+        | killed r => exact g1
         | crashed => exact g1
 
   theorem good_item (a : Acc) (it : Item) (hw : it.wf = true) (hi : Inv a.st)
       (hl : a.st.cur.live = true) : Good a (runItem a it).1 (runItem a it).2 := by
     match it with
-    | .err => exact ⟨hi, rfl, fun _ => hl, (fun h => nomatch h), fun h => h⟩
+    | .err => exact ⟨hi, rfl, rfl, fun _ => hl, (fun _ h => nomatch h), fun h => h⟩
     | .op o =>
       have ho : localOp o = true := by unfold Item.wf at hw; exact hw
       have hs := local_step (s := a.st) o ho hl
       have hinv := inv_step o hi (by cases o <;> first | exact hl | rfl)
+      have hh := local_hard (s := a.st) o ho
       unfold runItem
       simp only
       cases hout : (step a.st o).2 with
       | ok =>
-        exact ⟨hinv, hs.1, fun _ => hs.2.1 (by rw [hout]; decide), (fun h => nomatch h), fun h => h⟩
+        exact ⟨hinv, hs.1, hh, fun _ => hs.2.1 (by rw [hout]; decide), (fun _ h => nomatch h), fun h => h⟩
       | terminated =>
-        exact ⟨hinv, hs.1, fun h => absurd rfl h, fun _ => hs.2.2 hout, fun h => h⟩
+        exact ⟨hinv, hs.1, hh, fun h => absurd rfl (h _), fun _ _ => hs.2.2 hout, fun h => h⟩
       | crash =>
-        exact ⟨hinv, hs.1, fun _ => hs.2.1 (by rw [hout]; decide), (fun h => nomatch h), fun h => h⟩
+        exact ⟨hinv, hs.1, hh, fun _ => hs.2.1 (by rw [hout]; decide), (fun _ h => nomatch h), fun h => h⟩
     | .call d body =>
       have hwb : wfBody body = true := by unfold Item.wf at hw; exact hw
       have hi0 : Inv (push a.st d) := inv_step (.push d) hi hl
       have gb := good_body { a with st := push a.st d } body hwb hi0 rfl
-      unfold runItem
-      simp only
       cases hr : runBody { a with st := push a.st d } body with
       | mk a1 ex =>
         rw [hr] at gb
-        have hpar : a1.st.parents = a.st.cur :: a.st.parents := gb.parents
-        -- the state the deferred pop sees
-        have hi2 : Inv (if ex = Exit.error then setError a1.st else a1.st) := by
-          split
-          · exact inv_setError gb.inv
-          · exact gb.inv
-        have hpar2 : (if ex = Exit.error then setError a1.st else a1.st).parents = a.st.cur :: a.st.parents := by
-          split
-          · exact hpar
-          · exact hpar
-        obtain ⟨hc2, hch2⟩ := hi2
-        rw [hpar2] at hch2
-        obtain ⟨hcp, hp, hpl, hrest⟩ := hch2
-        have hpop : pop (if ex = Exit.error then setError a1.st else a1.st) =
-            (⟨charged a.st.cur (if ex = Exit.error then setError a1.st else a1.st).cur, a.st.parents⟩, .ok) := by
-          have := pop_ok (ps := a.st.parents) hc2 hp hpl hcp
-          rw [← hpar2] at this
-          exact this
-        rw [hpop]
-        simp only
-        have hs := charged_same a.st.cur (if ex = Exit.error then setError a1.st else a1.st).cur
-        have hinv3 : Inv ⟨charged a.st.cur (if ex = Exit.error then setError a1.st else a1.st).cur, a.st.parents⟩ :=
+        obtain ⟨hc2, hcp, hp, hrest, hrun⟩ := call_unfold a d body a1 ex hr gb hl
+        rw [hrun]
+        have hs := charged_same a.st.cur (afterBody ex a1.st).cur
+        have hinv3 : Inv ⟨charged a.st.cur (afterBody ex a1.st).cur, a.st.parents⟩ :=
           ⟨charged_frameOk hc2 hp hcp, chainInv_congr hs.1 hs.2.2.1 hrest⟩
-        have hlive3 : (charged a.st.cur (if ex = Exit.error then setError a1.st else a1.st).cur).live = true := by
+        have hlive3 : (charged a.st.cur (afterBody ex a1.st).cur).live = true := by
           unfold Frame.live; rw [hs.2.2.2.1]; exact hl
+        have hpoppedK : ∀ r, ex = .killed r → (afterBody ex a1.st).cur.popped.status = StatusKilled := by
+          intro r hr'
+          have hk := gb.killed r hr'
+          rw [(afterBody_same ex a1.st).2.2.2.2 (by rw [hr']; exact fun c => nomatch c)]
+          unfold Frame.popped Frame.live; rw [hk]; simp [StatusKilled, StatusLive]; exact hk
+        unfold afterPop
         cases ex with
-        | crashed => exact ⟨hinv3, rfl, fun _ => hlive3, (fun h => nomatch h), gb.truthful⟩
+        | crashed => exact ⟨hinv3, rfl, hs.1, fun _ => hlive3, (fun _ h => nomatch h), gb.truthful⟩
         | done =>
-          refine ⟨hinv3, rfl, fun _ => hlive3, (fun h => nomatch h), fun h r hr => ?_⟩
+          refine ⟨hinv3, rfl, hs.1, fun _ => hlive3, (fun _ h => nomatch h), fun h r hr => ?_⟩
           rcases List.mem_cons.mp hr with rfl | hr
-          · have hlv := gb.live (fun h => nomatch h)
-            refine ⟨fun _ => ?_, (fun h => nomatch h), (fun h => nomatch h), (fun h => nomatch h)⟩
-            show (if Exit.done = Exit.error then setError a1.st else a1.st).cur.popped.status = StatusDone
-            rw [if_neg (fun h => nomatch h)]
+          · have hlv := gb.live (fun _ h => nomatch h)
+            refine ⟨fun _ => ?_, (fun h => nomatch h), (fun h => by obtain ⟨_, h⟩ := h; cases h), (fun h => nomatch h)⟩
+            show (afterBody Exit.done a1.st).cur.popped.status = StatusDone
+            rw [(afterBody_same Exit.done a1.st).2.2.2.2 (fun c => nomatch c)]
             unfold Frame.popped; rw [if_pos hlv]
           · exact gb.truthful h r hr
         | error =>
-          refine ⟨hinv3, rfl, fun _ => hlive3, (fun h => nomatch h), fun h r hr => ?_⟩
+          refine ⟨hinv3, rfl, hs.1, fun _ => hlive3, (fun _ h => nomatch h), fun h r hr => ?_⟩
           rcases List.mem_cons.mp hr with rfl | hr
-          · refine ⟨(fun h => nomatch h), fun _ => ?_, (fun h => nomatch h), (fun h => nomatch h)⟩
-            show (if Exit.error = Exit.error then setError a1.st else a1.st).cur.popped.status = StatusError
-            rw [if_pos rfl]
+          · refine ⟨(fun h => nomatch h), fun _ => ?_, (fun h => by obtain ⟨_, h⟩ := h; cases h), (fun h => nomatch h)⟩
+            show (afterBody Exit.error a1.st).cur.popped.status = StatusError
+            unfold afterBody; rw [if_pos rfl]
             unfold Frame.popped Frame.live setError; simp [StatusError, StatusLive]
           · exact gb.truthful h r hr
-        | killed =>
-          refine ⟨hinv3, rfl, fun _ => hlive3, (fun h => nomatch h), fun h r hr => ?_⟩
-          rcases List.mem_cons.mp hr with rfl | hr
-          · have hk := gb.killed rfl
-            refine ⟨(fun h => nomatch h), (fun h => nomatch h), fun _ => ?_, (fun h => nomatch h)⟩
-            show (if Exit.killed = Exit.error then setError a1.st else a1.st).cur.popped.status = StatusKilled
-            rw [if_neg (fun h => nomatch h)]
-            unfold Frame.popped Frame.live; rw [hk]; simp [StatusKilled, StatusLive]; exact hk
-          · exact gb.truthful h r hr
+        | killed res =>
+          simp only
+          rcases propagate_cases (charged a.st.cur (afterBody (Exit.killed res) a1.st).cur)
+              (afterBody (Exit.killed res) a1.st).cur.popped res with e | ⟨e, _, _⟩
+          · rw [e]
+            simp only
+            refine ⟨hinv3, rfl, hs.1, fun _ => hlive3, (fun _ h => nomatch h), fun h r hr => ?_⟩
+            rcases List.mem_cons.mp hr with rfl | hr
+            · exact ⟨(fun h => nomatch h), (fun h => nomatch h), fun _ => hpoppedK res rfl, (fun h => nomatch h)⟩
+            · exact gb.truthful h r hr
+          · rw [e]
+            simp only
+            have hk : Inv ⟨(charged a.st.cur (afterBody (Exit.killed res) a1.st).cur).kill, a.st.parents⟩ :=
+              ⟨frameOk_kill hinv3.1, chainInv_congr (c := charged a.st.cur (afterBody (Exit.killed res) a1.st).cur)
+                (ps := a.st.parents) rfl rfl hinv3.2⟩
+            exact ⟨hk, rfl, hs.1, fun h => absurd rfl (h res), fun _ _ => rfl, gb.truthful⟩
 end
 
 end GoluaVerif.Proofs.CallCtx
